@@ -1,10 +1,11 @@
 import DirectVerif.Gen.C06
 import DirectVerif.Model.MaskGeom
+import DirectVerif.Model.C06Seed
 /-!
 # Bridge C06 — the ACS arithmetic translated from `/repo` equals the hand-written model
 -/
 namespace DirectVerif.Bridge.C06
-open DirectVerif DirectVerif.MaskGeom DirectVerif.Gen.C06
+open DirectVerif DirectVerif.MaskGeom DirectVerif.Gen.C06 DirectVerif.C06Seed DirectVerif.C06Round
 
 theorem center_mask_pad_eq (n l : Int) : center_mask_pad n l = centerPad n l := by
   unfold center_mask_pad centerPad
@@ -32,16 +33,49 @@ theorem zero_pad_stop_eq (t c : Int) : zero_pad_stop t c = zeroPadStart t c + c 
   simp only [Int.fdiv_eq_ediv_of_nonneg _ (by decide : (0 : Int) ≤ 2)]
   try omega
 
-/-- `num_low_freqs` glue -/
-theorem num_low_random_eq (f r c : Int) : num_low_random f r c = numLowFreqs (f != 0) r c := by
-  simp only [num_low_random, numLowFreqs]
+/-! `num_low_freqs` glue, float arithmetic included: the translated expressions are `numLow` of the object model
+(`Model/C06Seed.lean`), generator by generator -/
 
-theorem num_low_equispaced_eq (f r c : Int) : num_low_equispaced f r c = numLowFreqs (f != 0) r c := by
-  simp only [num_low_equispaced, numLowFreqs]
+theorem num_low_random_eq (cols : Nat) (p : PairCfg) (g : Gen) (hg : g = .fastmriRandom ∨ g = .cartesianRandom) :
+    num_low_random cols p.cfNum p.cfDen = numLow g cols p := by
+  rcases hg with rfl | rfl <;>
+  · simp only [num_low_random, numLow, numLowFreqs, roundMul, Int.toNat_natCast, Int.one_mul, Int.ofNat_lt, decide_eq_true_eq]
 
-theorem num_low_magic_eq (f r c : Int) : num_low_magic f r c = numLowFreqs (f == 0) r c := by
-  simp only [num_low_magic, numLowFreqs]
-  by_cases h : f = 0 <;> simp [h]
+theorem num_low_equispaced_eq (cols : Nat) (p : PairCfg) (g : Gen) (hg : g = .fastmriEquispaced ∨ g = .cartesianEquispaced) :
+    num_low_equispaced cols p.cfNum p.cfDen = numLow g cols p := by
+  rcases hg with rfl | rfl <;>
+  · simp only [num_low_equispaced, numLow, numLowFreqs, roundMul, Int.toNat_natCast, Int.one_mul, Int.ofNat_lt, decide_eq_true_eq]
+
+/-- Magic: raw width, sampling budget `round(num_cols / acceleration)`, cap -/
+theorem num_low_magic_eq (cols : Nat) (p : PairCfg) (g : Gen) (hg : g = .fastmriMagic ∨ g = .cartesianMagic) :
+    magic_cap (num_low_magic cols p.cfNum p.cfDen) (magic_target cols p.accNum p.accDen) = numLow g cols p := by
+  rcases hg with rfl | rfl <;>
+  · simp only [magic_cap, num_low_magic, magic_target, numLow, numLowFreqs, magicCap, roundMul, roundQuot, Int.toNat_natCast,
+      Int.one_mul, gt_iff_lt, Int.ofNat_lt, decide_eq_true_eq]
+    by_cases h : p.cfDen < p.cfNum <;> simp [h]
+
+/-- constructor guards (`if not all(… for center_fraction in center_fractions): raise ValueError`) -/
+theorem ctor_accepts_eq (p : PairCfg) (isInt : Bool) :
+    ctor_accepts_fastmrirandom p.cfNum p.cfDen (if isInt then 1 else 0) = ctorAccepts .fastmriRandom p isInt ∧
+    ctor_accepts_fastmriequispaced p.cfNum p.cfDen (if isInt then 1 else 0) = ctorAccepts .fastmriEquispaced p isInt ∧
+    ctor_accepts_fastmrimagic p.cfNum p.cfDen (if isInt then 1 else 0) = ctorAccepts .fastmriMagic p isInt ∧
+    ctor_accepts_cartesianrandom p.cfNum p.cfDen (if isInt then 1 else 0) = ctorAccepts .cartesianRandom p isInt ∧
+    ctor_accepts_cartesianequispaced p.cfNum p.cfDen (if isInt then 1 else 0) = ctorAccepts .cartesianEquispaced p isInt ∧
+    ctor_accepts_cartesianmagic p.cfNum p.cfDen (if isInt then 1 else 0) = ctorAccepts .cartesianMagic p isInt := by
+  simp only [ctor_accepts_fastmrirandom, ctor_accepts_fastmriequispaced, ctor_accepts_fastmrimagic, ctor_accepts_cartesianrandom,
+    ctor_accepts_cartesianequispaced, ctor_accepts_cartesianmagic, ctorAccepts, fractionAccepted, countAccepted, and_self]
+
+theorem num_low_gaussian1d_eq (cols : Nat) (p : PairCfg) :
+    num_low_gaussian1d cols p.cfNum p.cfDen = numLow .gaussian1d cols p := by
+  simp only [num_low_gaussian1d, numLow, roundMul, Int.toNat_natCast]
+
+theorem num_low_ktuniform_eq (cols : Nat) (p : PairCfg) :
+    num_low_ktuniform cols p.cfNum p.cfDen = numLow .ktUniform cols p := by
+  simp only [num_low_ktuniform, numLow, roundMul, Int.toNat_natCast]
+
+theorem num_low_ktgaussian1d_eq (cols : Nat) (p : PairCfg) :
+    num_low_ktgaussian1d cols p.cfNum p.cfDen = numLow .ktGaussian1d cols p := by
+  simp only [num_low_ktgaussian1d, numLow, roundMul, Int.toNat_natCast]
 
 theorem magic_cap_eq (l t : Int) : magic_cap l t = magicCap l t := by
   simp only [magic_cap, magicCap]
@@ -68,5 +102,30 @@ theorem disk_pred_eq (rows cols : Nat) (radius : Int) (x y : Nat) :
 theorem circus_disk_pred_eq (rows cols : Nat) (thr : Int) (x y : Nat) :
     circus_disk_pred ((rows / 2 : Nat) : Int) ((cols / 2 : Nat) : Int) thr x y = inDiskLe rows cols thr x y := by
   simp only [circus_disk_pred, inDiskLe]
+
+/-! ## structural tables of the current source (all `decide` on generated data) -/
+
+/-- `temp_seed` is `state = rng.get_state(); rng.seed(seed); try: yield finally: rng.set_state(state)`: the caller's
+seed reaches `rng.seed` unchanged — also `0`, `False`, `np.int64(0)` -/
+theorem seed_passes_unchanged : seedPassOk tempSeed tempSeedArgs = true := by decide
+
+/-- no instance / class / module state is written, no memoising decorator or mutable default argument is used in any
+function reachable from `mask_func` or `__call__` of the 14 generators -/
+theorem no_state_written : stateWritesOk stateWrites = true := by decide
+
+/-- `__call__` is its guards followed by `return self.mask_func(shape, *args, **kwargs)` -/
+theorem call_forwards : callPlanOk callPlans = true := by decide
+
+/-- every generator: one `with temp_seed(self.rng, seed)` over its own, never rebound, `seed`; `choose_acceleration`
+is called once, inside it, before the `return_acs` return -/
+theorem seed_param_ok : seedParamOk seedParams = true := by decide
+
+/-- the machine the translated facts select is the one the property theorems (`Props/C06.lean`, section histories)
+are about -/
+theorem code_machine {σ Seed : Type} :
+    @callWith σ Seed (SeedArg.ofTexts tempSeedArgs) (MemoPolicy.ofWrites stateWrites) = @call σ Seed := by
+  have h1 : SeedArg.ofTexts tempSeedArgs = .unchanged := by decide
+  have h2 : MemoPolicy.ofWrites stateWrites = .none := by decide
+  rw [h1, h2]; rfl
 
 end DirectVerif.Bridge.C06
